@@ -15,20 +15,40 @@ from harness.util import first_failures
 
 ID = 'C16'
 LEVEL = 'other'
+PROPERTY_MODULES = ['PanqecVerif.Properties.C16', 'PanqecVerif.Properties.C16Window']
 LEVEL_TEXT = ('Partly proved, partly tested.  Lean theorems (all rows, all parameters, every exponent convention): '
               'fit_function/rescale_prob are the ansatz A + Bx + Cx^2, x = (p - p_th) d^nu; planted parameters have '
               'zero residual and minimise the least-squares cost, every minimiser reproduces every planted point; cost, '
               'truncation and the reported quantiles are invariant under row / bootstrap-sample permutations; default '
               'truncation keeps all rows; the reported median lies between the reported 0.16 and 0.84 quantiles for every '
               'bootstrap sample; get_fit_status returns success iff all its tests pass, each failure string exactly under '
-              'its condition, success under the planted-box hypotheses.  TESTED only (not proved): scipy curve_fit '
+              'its condition, success under the planted-box hypotheses.  WHICH ROWS THE FIT SEES AND WHERE IT STARTS '
+              '(Properties/C16Window.lean, all tables / grids): get_p_th_nearest returns one of the supplied rates, is '
+              'order independent (one value per (code, rate), distinct n per code) and is the smallest rate in the pipeline; '
+              'get_p_th_sd_interp is order independent, returns grid points left <= crossover <= right inside the data '
+              'range (+ < one grid step), is total on >= 2 curves, and for straight lines through (p_th, A) returns the '
+              'grid point nearest to p_th (|p_crossover - p_th| < res/2) with the whole grid as window; default window = '
+              'all rows with the seed inside; the first fit starts inside the range of the rows it uses (at the seed when '
+              'that is in range), order independent, and fails exactly on an empty window; the whole selection '
+              '(calculate_thresholds up to curve_fit) is invariant under permutations of the results rows; skip => no row, replace => '
+              'exactly the given values and no fit; apply_overrides writes class-name keys that calculate_thresholds '
+              '(label keys) never finds (overrides_spec_never_applies).  TESTED only (not proved): scipy curve_fit '
               'converging to the minimiser and the beta-resampled bootstrap bracketing it - planted data sets are pushed '
               'through Analysis(...).thresholds on every run.')
 LEVEL_NOTE = ('trusted/modelled: scipy.optimize.curve_fit (contract "returns a minimiser", exercised not proved), numpy '
               'Generator.beta/choice, np.quantile/np.median (modelled as linear interpolation, compared on the real '
               'bootstrap column), libm pow for d**nu (passed to the model as a per-row scale), float arithmetic within '
-              'relative 1e-12 of the exact rational value')
-TECHNIQUE = ('Lean 4 proof (Rat field arithmetic, List.Perm, insertion-sort quantiles, decision-chain case analysis) + '
+              'relative 1e-12 of the exact rational value.  Window model: the interpolation grid of get_p_th_sd_interp is '
+              "numpy's np.arange output read at the boundary (a parameter of the model; compared with the exact grid "
+              'p_min + i/1000: length exact or one more, points within 1e-12); the SD is sq(variance) with sq a parameter '
+              '(driver: 40-digit rational root; theorems for every sq); np.argsort / sort_values modelled as stable sorts '
+              '(exact without ties at the extremes of a rate row and with distinct n).  Inputs on which rounding noise '
+              'decides the implementation (two neighbouring grid points with EQUAL exact SD, e.g. identical curves: '
+              'pandas gives std([c,c,c]) = 4e-18) are recognised by the model and left out of the comparison (counted in '
+              'the evidence as *-skipped:rounding-decides); NaN logical rates and duplicated (code_label, error_rate) are '
+              'outside the modelled domain of get_p_th_sd_interp (aggregate never produces the latter)')
+TECHNIQUE = ('Lean 4 proof (Rat field arithmetic, List.Perm, insertion-sort quantiles, decision-chain case analysis, '
+             'V-shape analysis of argrelextrema, exact linear interpolation) + '
              'differential correspondence with the compiled model driver + planted-threshold recovery test')
 EXPLANATION = ('C16 is claimed at level "other": the recovery of a planted threshold depends on the convergence of a '
                'third-party numerical optimiser (scipy curve_fit, Levenberg-Marquardt) and on quantiles of 100 '
@@ -36,26 +56,47 @@ EXPLANATION = ('C16 is claimed at level "other": the recovery of a planted thres
                'ansatz identity, zero residual and global minimality of the planted parameters, minimisers reproduce the '
                'data (recovery_partial: with the optimiser as a parameter satisfying its contract), permutation '
                'invariance of cost/truncation/quantiles, estimate inside its own interval for every bootstrap sample, '
-               'complete characterisation of get_fit_status.  TESTED on every run: planted (p_th, nu, A, B, C) in a '
+               'complete characterisation of get_fit_status; in Properties/C16Window.lean: the selection of the rows and '
+               'of the start vector (get_p_th_nearest, get_p_th_sd_interp, default / autotruncate / manual windows, '
+               'skip / replace, apply_overrides) - order independence, data range, crossing of straight lines, first-fit '
+               'start inside the window, override semantics.  TESTED on every run: planted (p_th, nu, A, B, C) in a '
                'well-conditioned box, 3-5 distances with d_max >= 2 d_min, 7-11 error rates around p_th, 20000 trials per '
                'point with n_fail = round(f n): p_th_fss within 2 x interval width + 1e-4 of the planted p_th, inside its '
                'interval and the data range, status success, all rows used, pooled counts as planted, bootstrap '
                "fits' A scattered around the planted A, identical under a different file layout / order; "
                'curve_fit is spied at its boundary and the reported fss_params are compared with what it '
                'returned (model: the bootstrap loop leaves them alone, start values replaced by the mid-range on a '
-               'copy; regression data set of commit 182c096 in the corpus).  Observed: in about 1% of the planted '
+               'copy; regression data set of commit 182c096 in the corpus); the cost of its answer is compared (exactly, '
+               'by the model driver) with the cost of the planted parameters.  Observed: in about 1% of the planted '
                'data sets the first fit ends in a local minimum outside the data range (third-party behaviour, not '
-               'counted; p_th_fss is still recovered because the bootstrap fits restart from the mid-range).')
+               'counted; p_th_fss is still recovered because the bootstrap fits restart from the mid-range).  '
+               'Found while modelling the window code (reported, outside the statement of C16): overrides given to '
+               'Analysis(overrides=...) never apply (name keys vs label keys); in the pipeline p_th_nearest is always the '
+               'smallest rate; the autotruncate window can hold no data row (ValueError) and its edge rows are kept or '
+               'dropped by the rounding of np.arange; skipping or replacing every parameter set raises.')
 TRUSTED = ['scipy.optimize.curve_fit returns a minimiser of the least-squares cost within ftol (contract; tested on '
-           'planted data, compared with the planted cost by the model driver)',
-           'numpy Generator(seed 0).beta / choice, np.quantile (linear), np.median, np.std',
-           'libm pow for d**nu']
+           'planted data: the cost of its answer is compared with the cost of the planted parameters by the model '
+           'driver, op fsscostle, whenever the answer lies inside the data range)',
+           'numpy Generator(seed 0).beta / choice, np.quantile (linear), np.median, np.std (radicand compared: op winse)',
+           'libm pow for d**nu',
+           'numpy arange (grid of get_p_th_sd_interp, read at the boundary and compared with the exact grid), scipy '
+           'interp1d / argrelextrema and pandas std as modelled (compared on every table whose exact SD sequence has no '
+           'tie between neighbouring grid points)']
 ASSUMPTIONS = ['planted box: 0.03 <= p_th <= 0.3, 0.6 <= nu <= 1.6, 0.1 <= A <= 0.45, 0.3 <= B <= 2, -1 <= C <= 2, '
                'rates within +-35% of p_th, all planted rates in [0.02, 0.9] and increasing in p, d_max >= 2 d_min',
-               'no manual overrides, autotruncate off (defaults of Analysis)']
+               'recovery (planted stream, oracle class planted): no manual overrides, autotruncate off (defaults of '
+               'Analysis); the window model, streams and oracle classes nearest / sd-interp / window cover overrides '
+               'and autotruncate',
+               'get_p_th_nearest order independence: one value per (code, error_rate) and distinct n per code tuple; '
+               'model exact without ties at the extremes of a rate row (numpy argsort is not stable on AVX-512 builds)',
+               'get_p_th_sd_interp: finite logical rates, no duplicated (code_label, error_rate), no exact tie between '
+               'neighbouring grid values of the SD (rounding decides those in the implementation)']
 ANCHOR_FILES = ['panqec/analysis.py', 'panqec/utils.py']
 RULE = ('function/status streams: one op per call of fit_function / rescale_prob / get_fit_status; planted stream: ops on '
-        'the real thresholds row of a planted data set (status, quantiles, range, cost, recovery predicate)')
+        'the real thresholds row of a planted data set (status, quantiles, range, cost, recovery predicate, first-fit '
+        'start, p_th_fss_se); window-helpers: one op per call of get_p_th_nearest / get_p_th_sd_interp on a generated '
+        'table; window-pipeline: one op per Analysis(...) / calculate_thresholds call (apply_overrides state, thresholds '
+        'entries with curve_fit observed at its boundary)')
 
 N_TRIALS = 20000
 _cache = {}
@@ -253,6 +294,9 @@ def run_thresholds(inst, variant=0):
                 # error-rate ranges of the bootstrap resamples that follow the best fit
                 out['bs_bounds'] = [[min(c['xdata'][0]), max(c['xdata'][0])] for c in calls[k + 1:]]
                 out['bs_starts'] = [c['p0'][0] if c['p0'] else float('nan') for c in calls[k + 1:]]
+                out['first_p0'] = calls[k]['p0']            # start vector of the best fit as curve_fit received it
+            out['p_th_nearest'] = float(row['p_th_nearest'])
+            out['p_th_sd'] = float(row['p_th_sd'])
     except Exception as e:  # noqa: BLE001
         out = {'error': f'EXC:{type(e).__name__}:{str(e)[:120]}'}
     finally:
@@ -413,7 +457,32 @@ def correspondence(ctx):
             s.add(f"fssreported {fr(out['raw_opt'][0])} {bounds} {fr(fss[0])} {starts}", 'ok ok', desc,
                   tag='reported-vs-optimiser')
         s.add(f'fssrecovered {fr(inst["pth"])} {fr(recovery_tol(out))} ' + toks, 'recovered', desc, tag='recovery')
+        # p_th_fss_se is the population standard deviation of the bootstrap column
+        if out['bs_col'] and not any(math.isnan(x) for x in out['bs_col']):
+            s.add(f"winse {col} {fr(out['se'])}", 'ok', desc, tag='p_th_fss_se')
+        # which rows the first fit saw and where it started (default window): all rows, p0 = [p_th_nearest, 2, f_0, 1, 1]
+        if out.get('first_p0'):
+            trows = ';'.join(f'0:{d}:{2 * d * d}:1:{d}:{fr(p)}:{fr(f)}' for (d, p, f, nt, nf) in out['points'])
+            s.add(f"winfit {fr(out['p_left'])} {fr(out['p_right'])} {fr(out['p_th_nearest'])} {trows} "
+                  f"{out['n_trunc']} {fr(out['first_p0'][0])} {fr(out['first_p0'][2])}", 'ok ok ok', desc,
+                  tag='first-fit-start')
+            s.add(f'winnearest {trows}', str(Fraction(out['p_th_nearest'])), desc, tag='p_th_nearest-of-real-data')
+        # TEST of the optimiser's contract on the real numbers: the best fit is at least as good as the planted
+        # parameters (cost compared exactly by the model; each side with its own scale d**nu).  Not asked when the
+        # optimiser ended outside the data range (local minimum, see EXPLANATION).
+        raw = out.get('raw_opt')
+        if raw and out['p_left'] <= raw[0] <= out['p_right'] and not any(math.isnan(x) for x in raw):
+            def scaled(nu):
+                return ';'.join(f'{fr(p)},{fr(math.pow(d, nu))},{fr(f)}' for (d, p, f, nt, nf) in out['points'])
+            s.add(f"fsscostle {fr(raw[0])} {fr(raw[2])} {fr(raw[3])} {fr(raw[4])} {scaled(raw[1])} "
+                  f"{fr(inst['pth'])} {fr(inst['A'])} {fr(inst['B'])} {fr(inst['C'])} {scaled(inst['nu'])} 1 1/1000000000000000",
+                  'le', desc, tag='optimiser-vs-planted-cost')
     streams.append(s.run())
+    # --- which rows the fit sees and where it starts: get_p_th_nearest, get_p_th_sd_interp, the window branches
+    #     of calculate_thresholds, apply_overrides (harness/props/c16_window.py)
+    from harness.props import c16_window
+    streams.append(c16_window.stream_helpers(ctx))
+    streams.append(c16_window.stream_pipeline(ctx))
     return streams
 
 
@@ -485,6 +554,12 @@ def check_case(case):
             if (out['p_left'], out['p_right']) != (min(inst['ps']), max(inst['ps'])):
                 checks.append(('range', f"p_left/p_right={out['p_left']},{out['p_right']} data "
                                         f"{min(inst['ps'])},{max(inst['ps'])}"))
+            p0 = out.get('first_p0')
+            if p0 is not None and not (out['p_left'] <= p0[0] <= out['p_right']):
+                checks.append(('start-inside-range', f"the first fit starts at p_th={p0[0]}, data range "
+                                                     f"[{out['p_left']}, {out['p_right']}]"))
+            if not (out['p_left'] <= out['p_th_nearest'] <= out['p_right']):
+                checks.append(('start-inside-range', f"p_th_nearest={out['p_th_nearest']} outside the data range"))
             if out['n_trunc'] != len(inst['ds']) * len(inst['ps']):
                 checks.append(('rows-used', f"{out['n_trunc']} rows used of {len(inst['ds']) * len(inst['ps'])}"))
             if abs(out['p_th_fss'] - inst['pth']) > recovery_tol(out):
@@ -550,6 +625,9 @@ def check_case(case):
                 elif abs(opt[0] - base[0]) > 1e-6 * abs(base[0]):
                     return f'fitted p_th depends on the row order: {base[0]!r} vs {opt[0]!r}'
             return None
+        if kind in ('nearest', 'sd-interp', 'window'):
+            from harness.props import c16_window
+            return c16_window.check_window_case(case)
     except Exception as e:  # noqa: BLE001
         case['_check'] = 'harness'
         return f'raised {type(e).__name__}: {e}'
@@ -557,6 +635,9 @@ def check_case(case):
 
 
 def fail_key(case):
+    if case['class'] in ('nearest', 'sd-interp', 'window'):
+        from harness.props import c16_window
+        return c16_window.window_fail_key(case)
     k = {'class': case['class']}
     if '_check' in case:
         k['check'] = case['_check']
@@ -585,6 +666,8 @@ def oracle_cases(ctx, deep):
         cases.append({'class': 'planted', 'instance': inst, 'order': bool(deep or j < 2)})
     for inst in insts[:3]:
         cases.append({'class': 'row-order', 'instance': inst})
+    from harness.props import c16_window
+    cases += c16_window.window_oracle_cases(ctx, deep)
     return cases
 
 
